@@ -53,22 +53,26 @@ CHECKS = {
           LEAN_TB + "Convergence at full bond dimension, interlacing for higher roots, Davidson: numerical.",
           "Lean 4 partial proof (variational bound) + hypothesis check + dense-oracle search", "§6 C08, §10.2", "other"),
  "C09": P("Partial: one explicit RK step = polynomial in the generator for every tableau and every linear generator (rk_step_poly) with coefficients 1/k! up to the advertised order (generated facts); "
-          "adaptive controller model. The real general RK scheme at full bond dimension equals the model polynomial (1e-15) for all ten tableaux. Orders by slopes, solver independence, "
+          "adaptive controller model with time conservation for every factor sequence; projector-splitting sweeps as symmetric compositions (C12 theorems on the linear tree), the local-propagation "
+          "sequence of the real chain tdvp_ps / tdvp_ps2 replayed exactly. The real general RK scheme at full bond dimension equals the model polynomial (1e-15) for all ten tableaux. Orders by slopes, solver independence, "
           "split calls, PS conservation, bond limits: dense oracle.",
           LEAN_TB + "Error orders and solver convergence are numerical.",
           "Lean 4 partial proof (RK polynomial, translator-generated facts) + correspondence + dense-oracle search", "§6 C09, §10.2", "other"),
- "C10": P("Partial: closed-form propagator = product of local factors, scalar shift, phase bookkeeping of evolve_exact (with the D3 witness) are Lean theorems tied to the real exact_propagator; "
+ "C10": P("Partial: closed-form propagator = product of local factors, scalar shift, phase bookkeeping of evolve_exact (with the D3 witness), purification identities (<A,OA> = Tr(O A A^H), "
+          "U^m (U^m)^H = U^2m, invariance of the reported average under per-step normalisation) are Lean theorems tied to the real exact_propagator / ThermalProp; "
           "exp(-tau H) and Gibbs averages for all schemes/sectors/offsets: dense oracle.",
           LEAN_TB + "Imaginary-time convergence is numerical.",
           "Lean 4 partial proof (propagator structure, bookkeeping) + correspondence + dense-oracle search", "§6 C10, §10.2", "other"),
- "C11": P("Partial: state-sum model of a tensor network on any graph (scale, linearity in a node, node relabelling = child-order independence, bond permutation gauge) proved in Lean and replayed on "
-          "real TTNS objects; add/apply/canonicalise/compress/expectation/RDM/entropies/from_mps: dense oracle.",
+ "C11": P("Partial: state-sum model of a tensor network on any graph (scale, linearity in a node, node relabelling = child-order independence, bond permutation gauge, general bond gauge "
+          "G / G^-1 = every QR / lossless SVD push of the tree code) proved in Lean; hypotheses checked on every real push_cano move, model replayed on "
+          "real TTNS objects; tree sector theorem (Props/C06Tree); add/apply/canonicalise/compress/expectation/RDM/entropies/from_mps: dense oracle.",
           LEAN_TB + "tn imports only with the print_tree shim.",
           "Lean 4 partial proof (state-sum model) + correspondence + dense-oracle search", "§6 C11, §10.2", "other"),
- "C12": P("Partial: traversal bookkeeping of the two-site projector-splitting sweep (one two-site step per edge, every rooted tree) + C09's RK skeleton; step counts of the real tdvp_ps2 replayed; "
+ "C12": P("Partial: Lean traversal models of the one- and two-site projector-splitting sweeps for every rooted tree (one local step per node/edge; backward half sweep = mirror image of the forward one; "
+          "hence a symmetric, time-reversible composition in any group of local flows) + C09's RK skeleton + C11's bond-gauge theorem; the event sequence of the real sweeps is replayed exactly; "
           "dense propagator oracle for all four schemes in real and imaginary time, sector, conservation, chain agreement.",
           LEAN_TB + "Orders and conservation laws are numerical. Open findings listed in known_findings.json.",
-          "Lean 4 partial proof (traversal, RK skeleton) + correspondence + dense-oracle search", "§6 C12, §10.2", "other"),
+          "Lean 4 partial proof (sweep traversal / symmetric composition, RK skeleton) + exact event-sequence correspondence + dense-oracle search", "§6 C12, §10.2", "other"),
  "C13": P("Lean effect model (derive / mutate / observe): well-formedness invariant, frame theorems, no_interference over every finite program. Random programs on real chain objects: every other live "
           "object's represented vector unchanged, no shared mutable containers. Snapshot search over all public methods, all schemes, MpDm, trees, zero/non-zero offsets.",
           LEAN_TB + "Sharing of immutable NumPy buffers is allowed. Documented exemptions: OFS reorders the Hamiltonian; the optimiser overwrites its guess.",
@@ -116,14 +120,15 @@ CHECKS = {
    technique="Lean 4 proof (weak duality + proved-sound certificate checker) with exhaustive small-graph correspondence"),
  "C14": dict(
    category="proof",
-   text="Crash safety is proved in Lean over a file-system state machine of dump_dict (files absent/partial/complete; remove, rename atomic; savez = create..finish): "
-        "dump_crash_safe holds for EVERY initial directory, EVERY number of dumps and EVERY crash instant (induction over the run). The model is tied to the code by exact "
-        "trace correspondence: the real TdMpsJob.dump_dict is run in forked children that die (os._exit) before each file-mutating audit event and inside np.savez, for all 9 "
+   text="Crash safety is proved in Lean over a file-system state machine of dump_dict (result file, left-over backup, temporary file, each absent/partial/complete; remove, replace atomic; "
+        "savez = create..finish): dump_preserves (no dump ever loses the newest complete result) and dump_crash_safe hold at full strength for EVERY initial directory, EVERY number of dumps "
+        "and EVERY crash instant, the first dump of a restarted job included (induction over the run). The model is tied to the code by exact "
+        "trace correspondence: the real TdMpsJob.dump_dict is run in forked children that die (os._exit) before each file-mutating audit event and inside np.savez, for all 18 "
         "initial directories; the observed (step, directory) trace must equal the model's runTrace. The same observed states are judged by the property itself (failing-input oracle). "
         "Round-trip of dump/load for chain, density-operator and tree states is searched by search_c14 (dense/byte comparison); its Lean side is the field model in Props/C14 (when present).",
    design_ref="§6 C14",
-   note="Trusted: Lean kernel + standard axioms; POSIX rename/remove atomicity; a killed np.savez leaves a non-loadable or key-incomplete file; audit events capture all mutations of the two files. "
-        "A job restarted into (partial, complete) deletes the old backup during its first dump (theorem restart_first_dump_unprotected) - outside the property's claim, recorded.",
+   note="Trusted: Lean kernel + standard axioms; POSIX rename/remove atomicity; a killed np.savez leaves a non-loadable or key-incomplete file; audit events capture all mutations of the three files. "
+        "The pinned tree's rename-based protocol lost a complete backup when a job was restarted into (partial, complete): defect D40, repaired (fix: 736f0dd); the model is the repaired protocol.",
    technique="Lean 4 invariant proof over a file-protocol state machine + exhaustive real-process crash injection trace correspondence"),
 }
 NOT_YET = "check not built yet in this session; see DESIGN.md §9 build order"
